@@ -8,6 +8,7 @@ CONSTANTS Sizes = {0, 1, 2, 3, 4, 5, 6, 7}
           MaxCacheables = {2, 8}
           MaxOps = 1
           Inductive = TRUE
+          Procs = {}
           HistSizes = {0, 3}
           HistLen = 3
 INVARIANTS CacheSound TransparentInv
